@@ -150,6 +150,43 @@ def save_replay(pid, fail):
     return path
 
 
+MODULE_LEVEL = ("C10", "C11", "C20")     # decided by harnesses compiled from the C sources: no Aldor libraries needed
+FAULT_EVIDENCE = ("C01", "C07")          # a compiler fault on the repository's own valid library sources is a direct counter-example
+
+
+def toolchain_verdict(pid, mod, tc, seed, tier):
+    """What a check says when the compiler built from the tree faults while compiling the repository's own library sources
+    (build.ensure returns a partial toolchain) or gets through them only with collection disabled. None = run normally."""
+    note = None
+    if tc.partial is not None:
+        if pid in MODULE_LEVEL:
+            return None
+        if pid not in FAULT_EVIDENCE:
+            print("INFRA-ERROR the compiler built from this tree faults while compiling the repository's libraries (step '%s'); check %s needs "
+                  "those libraries and cannot run. C01 and C07 report this fault as a violation.\n%s" % (tc.partial["step"], pid, tc.partial["tail"][-1200:]), flush=True)
+            return 2
+        note = tc.partial
+        what = "the compiler built from this tree faults while compiling the repository's own (valid) library sources in build step '%s'" % note["step"]
+    elif tc.gc_note is not None and pid == "C09":
+        note = tc.gc_note
+        what = ("build step '%s' of the repository's own libraries faults under the default collection schedule and goes through with collection "
+                "disabled (ALDOR_VERIF_GC=never): garbage collection changes what the compiler computes" % note["step"])
+    if note is None:
+        return None
+    ev = Ev()
+    ev.case("toolchain|" + note["step"], True, sample={"step": note["step"], "log_tail": note["tail"][-600:]}, classes=["toolchain_stage"])
+    d = os.path.join(VERIF, "replays", pid)
+    os.makedirs(d, exist_ok=True)
+    path = os.path.join(d, "toolchain-%s.json" % tc.hash)
+    with open(path, "w") as fh:
+        json.dump({"property": pid, "what": what, "case": {"toolchain_stage": note["step"], "tree": tc.hash}, "desc": {"kind": "toolchain-fault", "what": what, "log_tail": note["tail"]}}, fh, indent=1)
+    t = tier if tier in ("quick", "thorough") else "quick"
+    evidence.write(pid, t, seed, mod.LEVEL, ev, mod.RULE, 0.0, 1, mod.ASSUMPTIONS, exhaustive=None, tree=tc.hash)
+    print("VIOLATION property=%s replay=%s" % (pid, path), flush=True)
+    print("  what: %s" % what, flush=True)
+    return 1
+
+
 def main(argv=None):
     argv = argv or sys.argv[1:]
     if len(argv) < 2:
@@ -161,6 +198,14 @@ def main(argv=None):
     tc = build.ensure()
     if argv[1] == "--replay":
         data = json.load(open(argv[2]))
+        if "toolchain_stage" in data.get("case", {}):      # replay of a toolchain-stage verdict = rebuild from the tree and look again
+            r = toolchain_verdict(pid, mod, tc, seed, "quick")
+            if r is None:
+                print("replay passes: the compiler built from this tree compiles the repository's libraries")
+                return 0
+            return r
+        if tc.partial is not None and pid not in MODULE_LEVEL:
+            return toolchain_verdict(pid, mod, tc, seed, "quick")
         ctx = Ctx(pid, "quick", seed, tc)
         f = mod.replay(ctx, data["case"])
         if f is not None:
@@ -172,6 +217,9 @@ def main(argv=None):
             return 1
         print("replay passes: property %s holds on %s" % (pid, argv[2]))
         return 0
+    r = toolchain_verdict(pid, mod, tc, seed, argv[1])
+    if r is not None:
+        return r
     tier = argv[1]
     if os.environ.get("VERIF_TIER") in ("quick", "thorough") and tier not in ("quick", "thorough"):
         tier = os.environ["VERIF_TIER"]
